@@ -209,7 +209,7 @@ int record_resolver(int argc, char** argv)
 	std::size_t skip = argc > 2 ? std::strtoull(argv[2], nullptr, 10) : 0;
 	std::uint64_t seed = argc > 3 ? std::strtoull(argv[3], nullptr, 10) : 1;
 	std::string tpath = std::string(argv[1]) + ".trace";
-	std::FILE* tf = std::fopen(tpath.c_str(), skip ? "a" : "w");
+	std::FILE* tf = open_trace(tpath, skip);
 	if (!tf) { std::perror(tpath.c_str()); return 2; }
 	recorder rec(tf);
 	int rc = for_each_behaviour(argv[1], skip, [&](std::size_t i, json::value const& v) {
